@@ -40,15 +40,33 @@ class ListSpacing(str, Enum):
     tight = "tight"
 
 
+_BACKSLASH_BEFORE_PUNCTUATION = re.compile(r"\\(?=[!-/:-@\[-`{-~]|$)")
+
+
 def _normalize_title_quotes(title: str) -> str:
     """
-    Normalize title quotes.
+    A link title (its text, as the parser returns it for a link) written in double quotes.
+    Quotes and backslashes that are part of the title are escaped: they are not delimiters
+    (`[a](u '"quoted"')` has the title `"quoted"`, quotes included).
     """
-    escaped = title.strip('"').replace('"', '\\"')
+    escaped = _BACKSLASH_BEFORE_PUNCTUATION.sub(r"\\\\", title).replace('"', '\\"')
     return f'"{escaped}"'
 
 
-_BACKSLASH_BEFORE_PUNCTUATION = re.compile(r"\\(?=[!-/:-@\[-`{-~]|$)")
+def _normalize_definition_title(raw_title: str) -> str:
+    """
+    The title of a link reference definition, which the parser returns as written (with
+    its delimiters `"…"`, `'…'` or `(…)`), written in double quotes.
+    """
+    if len(raw_title) >= 2 and raw_title[0] == raw_title[-1] == '"':
+        return raw_title
+    if len(raw_title) >= 2 and (raw_title[0], raw_title[-1]) in (("'", "'"), ("(", ")")):
+        inner = raw_title[1:-1]
+        # The delimiters no longer need escaping, a double quote now does.
+        inner = re.sub(r"\\(['()])", r"\1", inner)
+        inner = re.sub(r'(?<!\\)"', r'\\"', inner)
+        return f'"{inner}"'
+    return _normalize_title_quotes(raw_title)
 
 
 def _format_link_destination(dest: str) -> str:
@@ -789,7 +807,7 @@ class MarkdownNormalizer(Renderer):
 
         link_text = element.dest
         if element.title:
-            link_text += f" {_normalize_title_quotes(element.title)}"
+            link_text += f" {_normalize_definition_title(element.title)}"
         result = f"{self._prefix}[{element.label}]: {link_text}\n"
         self._prefix = self._second_prefix
         self._suppress_item_break = True
@@ -849,8 +867,11 @@ class MarkdownNormalizer(Renderer):
         if self._ref_labels_source is not self.root_node.link_ref_defs:
             self._ref_labels_source = self.root_node.link_ref_defs
             self._ref_labels = {}
-            for ref_label, ref_target in self.root_node.link_ref_defs.items():
-                self._ref_labels.setdefault(ref_target, ref_label)
+            for ref_label, (ref_dest, ref_title) in self.root_node.link_ref_defs.items():
+                # The title as `render_link_ref_def` writes it, which is also how a link's
+                # own title is spelled below.
+                ref_title = _normalize_definition_title(ref_title) if ref_title else None
+                self._ref_labels.setdefault((ref_dest, ref_title), ref_label)
         label = self._ref_labels.get((element.dest, link_title))
         if label is not None:
             # A line break or a run of spaces inside the brackets is layout, not part of
